@@ -4,7 +4,9 @@
 Multi-part f-strings compile to BUILD_STRING, which concatenates the raw
 buffers of str subclasses at C level and so bypasses ``SymStr``.  The rewrite
 is mechanical (JoinedStr -> ``__symx_fstring__(...)``, FormattedValue ->
-``__symx_fmt__(value, conv, spec)``, ``X.join(Y)`` -> ``__symx_join__(X, Y)``),
+``__symx_fmt__(value, conv, spec)``, ``X.join(Y)`` -> ``__symx_join__(X, Y)``,
+``a in b`` / ``a not in b`` -> ``__symx_in__(a, b)`` so that a layout string tested against a plain
+``str`` container is a substring test in the model instead of a C-level scan of the poison buffer),
 performed at check time on whatever source is in /repo now; nothing else in the
 function changes and the result is never written to disk.
 """
@@ -43,6 +45,22 @@ class _T(ast.NodeTransformer):
         return node
 
 
+    def visit_Compare(self, node):
+        self.generic_visit(node)
+        if len(node.ops) == 1 and isinstance(node.ops[0], (ast.In, ast.NotIn)):
+            call = ast.Call(func=ast.Name(id="__symx_in__", ctx=ast.Load()), args=[node.left, node.comparators[0]], keywords=[])
+            if isinstance(node.ops[0], ast.NotIn):
+                call = ast.UnaryOp(op=ast.Not(), operand=call)
+            return ast.copy_location(call, node)
+        return node
+
+
+def _in(item, container):
+    if isinstance(item, strs.SymStr) and type(container) is str:
+        return strs.wrap(container).__contains__(item)
+    return item in container
+
+
 def _join(sep, items):
     if isinstance(sep, str):
         return strs.join(sep, items)
@@ -67,6 +85,7 @@ def rewritten(func):
     g["__symx_fstring__"] = strs.fstring
     g["__symx_fmt__"] = strs.fmt
     g["__symx_join__"] = _join
+    g["__symx_in__"] = _in
     ns = {}
     exec(compile(tree, f.__code__.co_filename, "exec"), g, ns)
     new = ns[fdef.name]
